@@ -60,6 +60,19 @@ class LMixedNode(LNode):                      # slots from the base class plus a
         self.colour = "c%d" % label
 
 
+class Record(object):                         # a slotted non-tree base class ...
+    __slots__ = ("key", "value")
+
+
+class RecordNode(Record, NodeMixin):          # ... mixed with NodeMixin (the documented `MyClass(MyBaseClass, NodeMixin)` pattern):
+    def __init__(self, label, parent=None):   # state lives partly in slots, partly in the instance dictionary
+        self.key = "k%d" % label
+        self.value = {"v": label}
+        self.label = label
+        self.name = "r%d" % label                 # Node.__repr__ of a node below prints the names along its path
+        self.parent = parent
+
+
 class _LPriv(LightNodeMixin):                 # a class name with a leading underscore and a name-mangled private slot
     __slots__ = ("label", "__secret")
 
@@ -104,6 +117,8 @@ def make(kind, label, target=None):
         return LDictNode(label)
     if kind == "lightmixed":
         return LMixedNode(label)
+    if kind == "slotbase":
+        return RecordNode(label)
     if kind == "lightpriv":
         return _LPriv(label)
     if kind == "lightstr":
@@ -141,6 +156,8 @@ def describe(entry):
             attrs.update({k: v for k, v in getattr(o, "__dict__", {}).items()})
         elif isinstance(o, (_LPriv, LStr)):
             attrs = _slot_attrs(o)
+        elif isinstance(o, RecordNode):
+            attrs = {k: v for k, v in _slot_attrs(o).items() if not k.startswith("_NodeMixin")}
         elif isinstance(o, LDictNode):
             attrs = {k: v for k, v in o.__dict__.items() if not k.startswith("_LightNodeMixin")}
         else:
@@ -181,7 +198,7 @@ def impl(case):
         except (anytree.LoopError, anytree.TreeError):
             pass
     lab_by_id = {id(o): i for i, o in enumerate(objs)}
-    has_slots = any(k.startswith("light") for k in kinds)   # LightNodeMixin itself declares __slots__
+    has_slots = any(k.startswith("light") or k == "slotbase" for k in kinds)   # LightNodeMixin itself declares __slots__
     results = []
     reach_sets = []
     for e, entry in enumerate(objs):
